@@ -190,7 +190,20 @@ func (self *DbImpl) Batch(ctx MutateContext, fn func(ctx MutateContext) error) e
 			if err := fn(ctx); err != nil {
 				return err
 			}
-			return ctx.runPreCommitActions()
+			if err := ctx.runPreCommitActions(); err != nil {
+				return err
+			}
+
+			txCompleteListeners := self.txCompleteListeners.Value()
+			if txCompleteListeners != nil {
+				tx.OnCommit(func() {
+					for _, listener := range txCompleteListeners {
+						listener(ctx)
+					}
+				})
+			}
+
+			return nil
 		})
 	}
 
